@@ -33,7 +33,7 @@ EXPLANATION = 'structure theorem about the model of make_slp + abstract two-stag
 
 
 def scenarios(seed, tier):
-    n = 110 if tier == 'quick' else 1200
+    n = 250 if tier == 'quick' else 2500
     return S.cases(n, seed)
 
 
